@@ -1,4 +1,11 @@
 from _common import *
+import cvlib
+# The guarded objects (resource, pool, buffer, queues) are verified over the CONTRACT STUB of the guard
+# (cmv_guardstub.h); the groups that establish that contract on the real cmb_resourceguard.c count for them in full.
+if not hasattr(cvlib, 'FULL_GROUPS'):
+    cvlib.FULL_GROUPS = {}
+for _p_ in ('C05', 'C07', 'C11', 'C12'):
+    cvlib.FULL_GROUPS.setdefault(_p_, []).extend([r'C04\.O3\.guard_wait', r'C06\.O2\.guard_signal'])
 _f = ['cmb_process_hold', 'cmb_process_timer_add/_cancel/_timers_clear', 'cmb_process_wait_process', 'cmb_process_wait_event', 'cmb_process_interrupt', 'cmb_process_resume',
       'cmb_process_stop', 'cmb_process_exit', 'cmb_process_priority_set', 'cmi_process_cancel_awaiteds', 'cmi_process_drop_resources', 'wake_process_waiters',
       'wakeup_event_time/_process/_interrupt, resume_event', 'cmb_resourceguard_wait/_signal/_cancel/_remove/_register', 'wakeup_event_resource',
@@ -21,8 +28,8 @@ GROUPS = [
     _p('C04.O3.wait_event.pending', 'C04', 'h_waitevent', 'H_WAITEVENT', '<= 2 foreign causes (one before the call, one during the wait); the awaited event stays pending', extra=['CMV_FATE=0'], tier='thorough', timeout=3000),
     _p('C04.O3.wait_event.executes', 'C04', 'h_waitevent', 'H_WAITEVENT', '<= 2 foreign causes; the awaited event executes while the caller waits', extra=['CMV_FATE=1'], canaries=2, tier='thorough', timeout=3000),
     _p('C04.O3.wait_event.cancelled', 'C04', 'h_waitevent', 'H_WAITEVENT', '<= 2 foreign causes; the awaited event is cancelled while the caller waits', extra=['CMV_FATE=2'], tier='thorough', timeout=3000),
-    _p('C04.O3.guard_wait', 'C04', 'h_guardwait', 'H_GUARDWAIT', 'foreign causes before and during the wait; another waiter or not; the guard signalled or not, demand true/false', also=['C08'], canaries=2),
-    _p('C06.O2.guard_signal', 'C06', 'h_guardsignal', 'H_GUARDSIGNAL', '<= 2 waiters with arbitrary priorities and entry times, one observer guard with one waiter; signal / cancel / remove', also=['C13'], observers=1),
+    _p('C04.O3.guard_wait', 'C04', 'h_guardwait', 'H_GUARDWAIT', 'foreign causes before and during the wait; another waiter or not; the guard signalled or not, demand true/false', also=['C08', 'C05', 'C07', 'C11', 'C12'], canaries=2),
+    _p('C06.O2.guard_signal', 'C06', 'h_guardsignal', 'H_GUARDSIGNAL', '<= 2 waiters with arbitrary priorities and entry times, one observer guard with one waiter; signal / cancel / remove', also=['C13', 'C05', 'C07', 'C11', 'C12'], observers=1),
     _p('C06.O3.priority_set', 'C06', 'h_prioset', 'H_PRIOSET', 'a process queued at a guard with a competitor, one armed timer, one held object'),
 ] + [_p('C09.O2.end.%s' % nm, 'C09', 'h_end', 'H_END', '%s; holding <= 1 object, <= 1 timer, queued at <= 1 guard, <= 1 pending wake-up, <= 2 waiters' % nm, extra=['CMV_ROUTE=%d' % r])
      for r, nm in ((0, 'exit'), (1, 'stop_by_other'), (2, 'stop_self'))] + [
